@@ -1,0 +1,23 @@
+//go:build verif
+
+// Contracts for the deductive verification in /verif (comment-only).
+package crypto
+
+// The BLS library is outside the verified subset: these contracts are ASSUMED
+// (trusted), they name the cryptographic predicates the callers are verified against.
+//
+//@ smt (declare-fun blsFastAggVerify (Slc_Bytes Bytes Bytes) Bool)
+//@ smt (declare-fun blsVerify (Bytes Bytes Bytes) Bool)
+
+//@ func AggregateVerify
+//@ property C01
+//@ trusted
+//@ ensures result == blsFastAggVerify(pks, msg, sig)
+//@ ensures result ==> len(pks) > 0
+//@ modifies nothing
+
+//@ func Verify
+//@ property C16
+//@ trusted
+//@ ensures result == blsVerify(pk, msg, sig)
+//@ modifies nothing
